@@ -509,7 +509,7 @@ func checkC11(c c11Case) (ci caseInfo, err error) {
 func genC11(t *rapid.T) c11Case {
 	c := c11Case{Variant: rapid.IntRange(0, 11).Draw(t, "variant")}
 	n := rapid.IntRange(2, 30).Draw(t, "nops")
-	nm := newNamer(true, false)
+	nm := newNamer(false, false)
 	kinds := []string{"item", "item", "list", "fill", "fill", "fillitem", "newmsg", "hsmsmsg", "setwait", "setsession", "observe", "observe", "decode", "ctrl", "rsp"}
 	for i := 0; i < n; i++ {
 		op := c11Op{
